@@ -23,7 +23,7 @@ type Opts struct {
 var AllFeatures = []string{
 	"async", "err", "multi", "bind", "struct", "value", "sets", "lit", "ext", "ctxparam",
 	"composite", "basic", "args", "unneeded", "multi-inj", "multi-file", "dupparam",
-	"generic", "variadic", "variadic-functype", "want-unsupplied", "kalias", "extalias", "value-and-pointer", "rewrap", "struct-both-forms",
+	"generic", "variadic", "variadic-functype", "want-unsupplied", "kalias", "extalias", "value-and-pointer", "rewrap", "struct-both-forms", "alias-basic",
 	"async-struct", "ptrrecv", "aiface", "embedded",
 }
 
@@ -310,6 +310,15 @@ func (g *gen) freshValueType(extOnly bool, label string) TypeID {
 	case 4:
 		return g.addType(Type{Kind: KNBasic, Name: g.typeName("N"), Basic: rapid.SampledFrom(nbasicUnder).Draw(g.rt, "under")})
 	case 5:
+		if !g.basicsUsed["alias"] && g.want("alias-basic", "aliasbasic", 30) {
+			// a type with two spellings: results say uint8 / int32, parameters say byte / rune
+			g.basicsUsed["alias"] = true
+			if rapid.Bool().Draw(g.rt, "aliaswhich") && !g.basicsUsed["byte"] {
+				g.basicsUsed["byte"] = true
+				return g.addType(Type{Kind: KBasic, Basic: "uint8", AltSpell: "byte"})
+			}
+			return g.addType(Type{Kind: KBasic, Basic: "int32", AltSpell: "rune"})
+		}
 		if g.allow("basic") {
 			var free []string
 			for _, b := range basics {
